@@ -51,4 +51,28 @@ SPECS = {
                          "not modelled (searched only): tiny-skia rasteriser and pipelines, blur/turbulence/lighting numerics, image decoders, clip/mask buffers (they copy the layer size)"],
         "assumptions": COMMON_ASSUME + ["a rendering that finishes on a 32x32 canvas is counted as bounded-time (cost is polynomial in the layer area); only a run that does not finish there is a hang"],
     },
+    "C13": {
+        "level": "proof",
+        "corr": True,
+        "search": True,
+        "translator_anchors": [],
+        "claim": "Lean 4 theorems giving the reason the property holds for everything rendered through a layer: floor/ceil commute with integer shifts, the raw layer rectangle and (unclamped) the fitted one move by exactly (k,m) with unchanged size, and the layer-local transform translate(-ix,-iy)*ts - from which children, clip paths, masks and every filter primitive are computed - is invariant; transform_light_source commutes for point lights, is proved NOT to commute for spot lights (region.x used for y; latent because an unclamped single-filter region has local origin (0,0), also proved). The models are tied by layer/filter traces of pairs of translated renderings (exact) and by a bit-exact Float32 correspondence of transform_light_source. That tiny-skia's rasteriser itself is translation invariant is assumed and searched (shifted-image comparison on corpus and generated documents).",
+        "design_ref": "§6 C13",
+        "rule": "correspondence: transform_light_source on PRNG transforms/regions/points (point and spot), and every layer/filter trace line of generated documents rendered with M and translate(dx,dy)*M. search: render(translate(dx,dy)*M) vs shifted render(M) on the overlap, dx != dy in [-40,40]^2, scale 1x/2x; noise-tolerant comparison (see harness/src/rend.rs); non-trivial = something painted.",
+        "trusted_base": ["modelled: render.rs render_group (layer rectangle, shift transform), filter/mod.rs transform_light_source (x/y), geom.rs fit_to_rect/to_int_rect, tiny-skia-path Transform::concat/map_point",
+                         "not modelled (searched only): tiny-skia rasteriser/shaders translation invariance, turbulence origin, apply_image placement, pattern tile placement, text"],
+        "assumptions": COMMON_ASSUME,
+    },
+    "C14": {
+        "level": "proof",
+        "corr": True,
+        "search": True,
+        "translator_anchors": [],
+        "claim": "Lean 4 theorems: a produced layer contains every device point of the group's box (grown by 1px) that lies inside the maximum box, a skipped group misses the maximum box completely, the maximum box handed to nested layers is the parent's box in layer coordinates so the canvas stays inside it at any nesting depth (after fix 64ee706; the unfixed code clipped nested layers), placement translate(-ix,-iy)*ts + offset (ix,iy) is the identity on device positions, source-over is associative so isolating a normally blended group is the identity in exact arithmetic, opacity laws (0 erases, 1 no-op, nested opacities multiply), should_isolate truth table. Tied by layer traces (layer rectangle, child max box: exact; shift transform: bit-exact Float32) of documents with injected isolation. 8-bit rounding of tiny-skia's compositing is outside the model and searched (isolation injection on generated documents and corpus Micro-SVG forms, +-(2+depth) tolerance).",
+        "design_ref": "§6 C14",
+        "rule": "correspondence: layer_in/layer_out/childmax/layerts trace lines of generated documents (depth <= 4) with isolation injected at random or all groups, root scales 0.5/1/3, fractional translations. search: picture with vs without injected isolation (normal blending only), opacity multiplication on flat colours; non-trivial = something painted.",
+        "trusted_base": ["modelled: render.rs render_group (layer rectangle, nested max box, shift transform), geom.rs fit_to_rect, tree/mod.rs Group::should_isolate, source-over compositing in exact arithmetic",
+                         "not modelled (searched only): tiny-skia draw_pixmap 8-bit arithmetic and rasteriser; the two dependency defects at negative offsets are known findings"],
+        "assumptions": COMMON_ASSUME + ["edge pixels of anti-aliased geometry may differ by up to a quarter of full coverage between direct and offscreen rasterisation (tiny-skia sub-sampling); flat areas must agree within the stated tolerance"],
+    },
 }
